@@ -98,6 +98,10 @@ func (share *Share) Verify(ec elliptic.Curve, threshold int, vs Vs) bool {
 	}
 	var err error
 	modQ := common.ModInt(ec.Params().N)
+	// id^j * V_j and share * G are not affine points when id or share is 0 mod q
+	if modQ.Add(share.ID, zero).Sign() == 0 || modQ.Add(share.Share, zero).Sign() == 0 {
+		return false
+	}
 	v, t := vs[0], one // YRO : we need to have our accumulator outside of the loop
 	for j := 1; j <= threshold; j++ {
 		// t = k_i^j
